@@ -1360,7 +1360,12 @@ class Executor:
             for (r, pth) in written:
                 try:
                     saved, self.write_log = self.write_log, None
-                    entry_values[self.describe_loc(r, pth)] = self.read(st, r, pth)
+                    nm_ = self.describe_loc(r, pth)
+                    k_ = 2
+                    while nm_ in entry_values:
+                        nm_ = "%s~%d" % (self.describe_loc(r, pth), k_)
+                        k_ += 1
+                    entry_values[nm_] = self.read(st, r, pth)
                 except Undecided:
                     pass
                 finally:
